@@ -104,6 +104,7 @@ struct Thr {
 inline thread_local Thr* tl_self = nullptr;
 inline int self_id() { return tl_self ? tl_self->id : 0; }
 
+inline int default_hang_secs() { const char* e = std::getenv("VERIF_HANG_SECS"); int v = e ? std::atoi(e) : 0; return v > 0 ? v : 60; }
 struct Ctl;
 inline Ctl* g_ctl = nullptr;
 
@@ -111,7 +112,7 @@ struct Ctl {
   sem_t back;
   std::map<int, std::unique_ptr<Thr>> thr;
   unsigned long stepNo = 0;
-  int hang_secs = 20;
+  int hang_secs = default_hang_secs();
   // schedule points whose site name does not start with one of these prefixes are ignored (other engines' hooks);
   // empty = accept all.  "begin" is always accepted.
   std::vector<std::string> accept;
